@@ -641,6 +641,7 @@ type extEffect struct {
 	writes   []int // argument indexes whose reachable objects are written
 	sorts    []int // same, emitted as SSort
 	retAlias []int // result may alias these arguments (plus fresh)
+	clone    []int // result is a FRESH slice holding copies of the elements of these arguments (like make+copy)
 	callback bool  // function-typed arguments are called with data from the other arguments
 	stringer bool  // may call String methods of the arguments (fmt)
 	sortIntf bool  // sort.Sort / sort.Stable: calls Len/Less/Swap of argument 0
@@ -665,7 +666,7 @@ var externs = map[string]extEffect{
 	"slices.BinarySearchFunc":                  {callback: true},
 	"slices.Equal":                             {},
 	"slices.Reverse":                           {sorts: []int{0}},
-	"slices.Clone":                             {retAlias: []int{0}},
+	"slices.Clone":                             {clone: []int{0}},
 	"golang.org/x/exp/slices.Sort":             {sorts: []int{0}},
 	"golang.org/x/exp/slices.SortFunc":         {sorts: []int{0}, callback: true},
 	"golang.org/x/exp/slices.SortStableFunc":   {sorts: []int{0}, callback: true},
@@ -676,7 +677,7 @@ var externs = map[string]extEffect{
 	"golang.org/x/exp/slices.BinarySearch":     {},
 	"golang.org/x/exp/slices.BinarySearchFunc": {callback: true},
 	"golang.org/x/exp/slices.Equal":            {},
-	"golang.org/x/exp/slices.Clone":            {retAlias: []int{0}},
+	"golang.org/x/exp/slices.Clone":            {clone: []int{0}},
 
 	"(encoding/binary.littleEndian).PutUint64": {writes: []int{1}},
 	"(encoding/binary.littleEndian).PutUint32": {writes: []int{1}},
@@ -1185,6 +1186,17 @@ func (g *fn) applyExt(eff extEffect, args []ssa.Value, rets []int, res ssa.Value
 	}
 	for _, r := range rets {
 		g.emit(stmt{k: KMake, x: r, pos: pos, why: "result of " + why})
+		for _, i := range eff.clone {
+			// a fresh backing array; only element values that themselves carry references stay shared
+			if v, ok := av(i); ok {
+				if sl, isSl := args[i].Type().Underlying().(*types.Slice); isSl && carrier(sl.Elem()) {
+					g.alias(r, []int{v}, pos, "cloned elements of "+why)
+					if container(sl.Elem()) {
+						g.alias(v, []int{r}, pos, "cloned elements of "+why+" (reverse: shared mutable cells)")
+					}
+				}
+			}
+		}
 		for _, i := range eff.retAlias {
 			if v, ok := av(i); ok {
 				g.alias(r, []int{v}, pos, "result of "+why+" aliases argument")
